@@ -1,6 +1,8 @@
 package main
 
 import (
+	"context"
+	"os/exec"
 	"strconv"
 	"go/ast"
 	"go/types"
@@ -270,15 +272,56 @@ func (r *Run) solveAll() {
 	if r.Dump != "" {
 		os.MkdirAll(r.Dump, 0o755)
 	}
-	sem := make(chan struct{}, 6)
-	var wg sync.WaitGroup
+	// 1. batches: the obligations of one proof unit share their declarations; they are checked one
+	// by one under push/pop by a single z3 process. Whatever is not discharged there goes to step 2.
+	groups := map[*Exec][]*Obligation{}
+	var order []*Exec
 	for _, o := range todo {
+		if o.x == nil {
+			continue
+		}
+		if _, ok := groups[o.x]; !ok {
+			order = append(order, o.x)
+		}
+		groups[o.x] = append(groups[o.x], o)
+	}
+	sem := make(chan struct{}, 12)
+	var wg sync.WaitGroup
+	if !r.Thorough && r.Dump == "" {
+		for _, x := range order {
+			g := groups[x]
+			if len(g) < 4 {
+				continue
+			}
+			for start := 0; start < len(g); start += 60 {
+				end := start + 60
+				if end > len(g) {
+					end = len(g)
+				}
+				chunk := g[start:end]
+				wg.Add(1)
+				sem <- struct{}{}
+				go func() {
+					defer wg.Done()
+					defer func() { <-sem }()
+					r.solveBatch(chunk)
+				}()
+			}
+		}
+		wg.Wait()
+	}
+	// 2. individually, racing the three solvers
+	sem2 := make(chan struct{}, 6)
+	for _, o := range todo {
+		if o.Res.Status == "unsat" {
+			continue
+		}
 		o := o
 		wg.Add(1)
-		sem <- struct{}{}
+		sem2 <- struct{}{}
 		go func() {
 			defer wg.Done()
-			defer func() { <-sem }()
+			defer func() { <-sem2 }()
 			script := o.script(r.L.prelude)
 			o.Size = len(script)
 			if r.Dump != "" {
@@ -302,6 +345,61 @@ func (r *Run) solveAll() {
 		}()
 	}
 	wg.Wait()
+}
+
+// solveBatch checks a chunk of obligations of one unit in a single z3 process under push/pop.
+func (r *Run) solveBatch(chunk []*Obligation) {
+	x := chunk[0].x
+	var b strings.Builder
+	b.WriteString(r.L.prelude)
+	maxDecl := 0
+	for _, o := range chunk {
+		if o.decls > maxDecl {
+			maxDecl = o.decls
+		}
+	}
+	for _, d := range x.decls[:maxDecl] {
+		b.WriteString(d)
+		b.WriteByte('\n')
+	}
+	for _, o := range chunk {
+		b.WriteString("(push 1)\n(assert " + or(o.disjuncts...) + ")\n(check-sat)\n(pop 1)\n")
+	}
+	script := b.String()
+	if len(script) > 8000000 {
+		return
+	}
+	fileSeq.Lock()
+	fileSeq.n++
+	fn := fmt.Sprintf("%s/batch%d.smt2", scratch(), fileSeq.n)
+	fileSeq.Unlock()
+	if os.WriteFile(fn, []byte(script), 0o644) != nil {
+		return
+	}
+	defer os.Remove(fn)
+	t0 := time.Now()
+	ctx, cancel := context.WithTimeout(context.Background(), time.Duration(20+len(chunk))*time.Second)
+	defer cancel()
+	out, _ := exec.CommandContext(ctx, "z3-new", "-t:4000", fn).Output()
+	secs := time.Since(t0).Seconds()
+	noteSolver("z3-new", secs)
+	lines := strings.Split(strings.TrimSpace(string(out)), "\n")
+	k := 0
+	for _, ln := range lines {
+		ln = strings.TrimSpace(ln)
+		if ln != "sat" && ln != "unsat" && ln != "unknown" && ln != "timeout" {
+			continue
+		}
+		if k >= len(chunk) {
+			break
+		}
+		if ln == "unsat" {
+			chunk[k].Res = Result{Status: "unsat", Solver: "z3-new", Secs: secs / float64(len(chunk))}
+			chunk[k].Backend = "z3-new"
+			chunk[k].Size = len(chunk[k].disjuncts[0])
+		}
+		k++
+	}
 }
 
 func (r *Run) loadKnown() []KnownFinding {
@@ -384,7 +482,11 @@ func (r *Run) report(pd *PropDef) int {
 			}
 			continue
 		case o.MustFail:
+			parts := strings.Split(o.Name, "/")
 			key := o.Unit + "/" + canaryLabel(o.Name)
+			if len(parts) > 2 {
+				key = parts[0] + "/" + parts[1] + "/" + canaryLabel(o.Name) // per function: a canary must be refuted on some path
+			}
 			if _, ok := canary[key]; !ok {
 				canary[key] = false
 			}
